@@ -179,36 +179,37 @@ class RealServer:
 
 
 def install_permissive_wrappers():
-    """Wrap the constructors start_server uses so that the contexts they return have security level 0."""
+    """Give every TLS context created while installed security level 0, so that the only thing refusing TLS 1.0 / 1.1 is the
+    minimum version the implementation sets.  Done at the library level (ssl.SSLContext.__new__, OpenSSL.SSL.Context.__init__)
+    and not by wrapping nauyaca's own constructors: how start_server builds its contexts is its business."""
     saved = {}
+    orig_new = ssl.SSLContext.__new__
+    orig_init = SSL.Context.__init__
 
-    def wrap_std(name):
-        orig = getattr(srvmod, name)
-        saved[name] = orig
+    def new(cls, *a, **kw):
+        ctx = orig_new(cls, *a, **kw)
+        try:
+            ctx.set_ciphers("ALL:@SECLEVEL=0")
+        except Exception:  # noqa: BLE001
+            pass
+        return ctx
 
-        def w(*a, **kw):
-            ctx = orig(*a, **kw)
-            if isinstance(ctx, ssl.SSLContext):
-                ctx.set_ciphers("ALL:@SECLEVEL=0")
-            return ctx
-        setattr(srvmod, name, w)
-
-    def wrap_py(name):
-        orig = getattr(srvmod, name)
-        saved[name] = orig
-
-        def w(*a, **kw):
-            ctx = orig(*a, **kw)
-            if ctx is not None and hasattr(ctx, "set_cipher_list"):
-                ctx.set_cipher_list(b"ALL:@SECLEVEL=0")
-            return ctx
-        setattr(srvmod, name, w)
-
-    wrap_std("create_server_context")
-    wrap_std("_create_self_signed_context")
-    wrap_py("create_pyopenssl_server_context")
-    wrap_py("_create_self_signed_pyopenssl_context")
+    def init(self, *a, **kw):
+        orig_init(self, *a, **kw)
+        try:
+            self.set_cipher_list(b"ALL:@SECLEVEL=0")
+        except Exception:  # noqa: BLE001
+            pass
+    ssl.SSLContext.__new__ = new
+    SSL.Context.__init__ = init
+    saved["ssl"] = orig_new
+    saved["pyopenssl"] = orig_init
     return saved
+
+
+def remove_permissive_wrappers(saved):
+    ssl.SSLContext.__new__ = saved["ssl"]
+    SSL.Context.__init__ = saved["pyopenssl"]
 
 
 def control_peers(rep, cert):
@@ -381,8 +382,7 @@ def live(rep, rnd, thorough):
         rep.add("traces_validated_against_impl", n)
         rep.sample({"live_c20_cases": [{"path": dict(s["path"]), "input": dict(s["input"]), "expected": dict(s["out"])} for s in cases[:4]]})
     finally:
-        for name, orig in saved.items():
-            setattr(srvmod, name, orig)
+        remove_permissive_wrappers(saved)
         for srv in servers.values():
             srv.stop()
         cert.remove()
